@@ -567,18 +567,82 @@ Proof.
   - destruct (repeat_split _ _ _ _ _ E) as [-> (k' & ->)]. cbn [pre_ok]. apply fold_deletes_some. exact F.
 Qed.
 
+(* in a split of what the plan holds for one ordinal, nothing before a create / update creates claims for it *)
+Definition makes_claims (a : act) : bool := match a with ADelete _ => false | _ => true end.
+Lemma shape_first_claims j st l : shape j st l -> forall X a Y, l = X ++ a :: Y -> makes_claims a = true ->
+  forall x, In x X -> makes_claims x = false.
+Proof.
+  intros Sh X a Y E Ha x Hx. destruct Sh as [st' | R | p R F | p u d R F Hu | p k C F].
+  - destruct X; discriminate.
+  - destruct X as [|y X]; [destruct Hx|]. cbn [app] in E. inversion E. destruct X; discriminate.
+  - destruct X as [|y X]; [destruct Hx|]. cbn [app] in E. inversion E; subst.
+    destruct X as [|z X]; [destruct Hx as [<-|[]]; reflexivity|]. cbn [app] in *. inversion H1. destruct X; discriminate.
+  - destruct u, d; cbn [app] in E.
+    + destruct X as [|y X]; [destruct Hx|]. cbn [app] in E. inversion E; subst.
+      destruct X as [|z X]; [cbn [app] in H1; inversion H1; subst; discriminate|]. cbn [app] in H1. inversion H1. destruct X; discriminate.
+    + destruct X as [|y X]; [destruct Hx|]. cbn [app] in E. inversion E. destruct X; discriminate.
+    + destruct X as [|y X]; [destruct Hx|]. cbn [app] in E. inversion E. destruct X; discriminate.
+    + destruct X; discriminate.
+  - destruct (repeat_split _ _ _ _ _ E) as [-> _]. discriminate.
+Qed.
+
+Lemma nodup_app_disj {A} (a b : list A) : NoDup (a ++ b) -> forall x, In x a -> In x b -> False.
+Proof.
+  induction a as [|y t IH]; intros H x Ha Hb; [destruct Ha|]. cbn [app] in H. inversion H; subst.
+  destruct Ha as [->|Ha]; [match goal with Hn : ~ In _ _ |- _ => apply Hn end; apply in_or_app; right; exact Hb | apply (IH ltac:(assumption) x Ha Hb)].
+Qed.
+Lemma nodup_app_parts {A} (a b : list A) : NoDup (a ++ b) -> NoDup a /\ NoDup b.
+Proof.
+  induction a as [|y t IH]; intros H; cbn [app] in H; [split; [constructor | exact H]|].
+  inversion H; subst. destruct (IH ltac:(assumption)) as [P1 P2]. split; [|exact P2].
+  constructor; [|exact P1]. intros Hin. match goal with Hn : ~ In _ _ |- _ => apply Hn end. apply in_or_app. left. exact Hin.
+Qed.
+Lemma nodup_flat_map_in {A B} (f : A -> list B) l x : NoDup (flat_map f l) -> In x l -> NoDup (f x).
+Proof.
+  induction l as [|y t IH]; intros H Hx; [destruct Hx|]. cbn [flat_map] in H.
+  destruct (nodup_app_parts _ _ H) as [H1 H2]. destruct Hx as [->|Hx]; [exact H1 | apply IH; [exact H2 | exact Hx]].
+Qed.
+Lemma nodup_flat_map_disj {A B} (f : A -> list B) l x y b :
+  NoDup (flat_map f l) -> In x l -> In y l -> x <> y -> In b (f x) -> In b (f y) -> False.
+Proof.
+  induction l as [|z t IH]; intros H Hx Hy Hne Hbx Hby; [destruct Hx|]. cbn [flat_map] in H.
+  destruct Hx as [->|Hx]; destruct Hy as [->|Hy].
+  - contradiction.
+  - apply (nodup_app_disj _ _ H b Hbx). apply in_flat_map. exists y. split; assumption.
+  - apply (nodup_app_disj _ _ H b Hby). apply in_flat_map. exists x. split; assumption.
+  - apply IH; try assumption. apply (nodup_app_parts _ _ H).
+Qed.
+
 Section Exec.
 Variable cache : world.
-Hypothesis Hclaims_cached : forall j, in_range cnt slots j = true -> claims_cached s cache j.
+(* the claim names of the desired ordinals are pairwise different (they are <template>-<set>-<ordinal>) *)
+Hypothesis Hnames : NoDup (flat_map (fun j => map (fun t => claim_name t (s_name s) j) (s_claims s)) (ordinals_of cnt slots)).
 
-Lemma all_ok_intro : forall l L, (forall A a B, l = A ++ a :: B -> okact s cache (fold_left (exec1 s) A L) a) -> all_ok s cache L l.
+Lemma missing_sub j n : In n (missing s cache j) -> In n (map (fun t => claim_name t (s_name s) j) (s_claims s)) /\ ~ In n (w_claims cache).
 Proof.
-  induction l as [|a t IH]; intros L H; cbn [all_ok]; [exact I|]. split.
+  unfold missing, missing_of. intros H. apply filter_In in H. destruct H as [H1 H2]. split; [exact H1|].
+  intros Hin. apply negb_true_iff in H2. rewrite (proj2 (RevisionProofs.smemb_In _ _) Hin) in H2. discriminate.
+Qed.
+
+Lemma all_ok_intro : forall l L C,
+  (forall A a B, l = A ++ a :: B -> okact s cache (fold_left (exec1 s) A L) (fold_left (exec1c s cache) A C) a) -> all_ok s cache L C l.
+Proof.
+  induction l as [|a t IH]; intros L C H; cbn [all_ok]; [exact I|]. split.
   - apply (H [] a t eq_refl).
   - apply IH. intros A b B E. apply (H (a :: A) b B). rewrite E. reflexivity.
 Qed.
 
-Lemma plan_all_ok : all_ok s cache pods acts.
+Lemma claim_ord_act a : In a acts -> forall j', claim_ord s a = Some j' -> j' = act_ord a /\ in_range cnt slots j' = true.
+Proof.
+  intros Ha j' Hj. destruct a as [f|q|p]; cbn [claim_ord act_ord] in *; [| discriminate |].
+  - inversion Hj; subst j'. split; [reflexivity|]. destruct (Kcre f Ha) as (i & R & -> & _).
+    rewrite nvp_ord by (apply in_range_max; exact R). exact R.
+  - inversion Hj; subst j'. destruct (Kupd p Ha) as (Hp & R & _).
+    assert (Hoo : getOrdinal (fixpod s p) = getOrdinal p) by (unfold getOrdinal; rewrite (fixpod_name s p (wf_name _ _ _ _ W p Hp)); reflexivity).
+    rewrite Hoo. split; [reflexivity | exact R].
+Qed.
+
+Lemma plan_all_ok : all_ok s cache pods (w_claims cache) acts.
 Proof.
   apply all_ok_intro. intros A a B E.
   assert (Ha : In a acts) by (rewrite E; apply in_or_app; right; left; reflexivity).
@@ -590,13 +654,31 @@ Proof.
   assert (Hsplit : acts_at j acts = acts_at j A ++ a :: acts_at j B).
   { rewrite E, acts_at_app. cbn [acts_at filter]. fold (acts_at j B). fold j. rewrite Z.eqb_refl. reflexivity. }
   pose proof (shape_splits j _ _ (plan_shape j (proj1 Ho)) _ _ _ Hsplit) as Hpre.
+  (* the claims of that ordinal are still to be created: nothing before this action made claims for it *)
+  assert (Hfresh : makes_claims a = true -> in_range cnt slots j = true -> claims_fresh s cache (fold_left (exec1c s cache) A (w_claims cache)) j).
+  { intros Hmk R. split.
+    - unfold missing, missing_of. apply NoDup_filter.
+      apply (nodup_flat_map_in (fun j0 => map (fun t => claim_name t (s_name s) j0) (s_claims s)) (ordinals_of cnt slots) j Hnames).
+      apply in_range_iff_desired. exact R.
+    - intros n Hn' Hin. destruct (missing_sub j n Hn') as [Hnj Hnc].
+      destruct (exec1c_in s cache A _ n Hin) as [Hc|(a' & j' & Ha' & Hj' & Hm)]; [contradiction|].
+      destruct (claim_ord_act a' (HA a' Ha') j' Hj') as [Ej' Rj'].
+      destruct (Z.eq_dec j' j) as [Ejj|Nj].
+      + (* an earlier claim-making action at the same ordinal: excluded by the shape *)
+        assert (Hin' : In a' (acts_at j A)) by (apply acts_at_In; split; [exact Ha' | congruence]).
+        pose proof (shape_first_claims j _ _ (plan_shape j (proj1 Ho)) _ _ _ Hsplit Hmk a' Hin') as Hno.
+        destruct a'; cbn in Hno, Hj'; discriminate.
+      + destruct (missing_sub j' n Hm) as [Hnj' _].
+        apply (nodup_flat_map_disj (fun j0 => map (fun t => claim_name t (s_name s) j0) (s_claims s)) (ordinals_of cnt slots) j' j n Hnames);
+          try assumption; apply in_range_iff_desired; assumption. }
   destruct a as [f|q|p]; cbn [okact pre_ok act_name] in *.
   - split; [rewrite Hlook; exact Hpre|]. destruct (Kcre f Ha) as (i & R & -> & _).
-    rewrite nvp_ord by (apply in_range_max; exact R). apply Hclaims_cached. exact R.
+    assert (Hi : getOrdinal (nvp i) = i) by (apply nvp_ord; apply in_range_max; exact R).
+    rewrite Hi. unfold j in Hfresh. cbn [act_ord] in Hfresh. rewrite Hi in Hfresh. apply Hfresh; [reflexivity | exact R].
   - rewrite Hlook. exact Hpre.
   - destruct (Kupd p Ha) as (Hp & R & _ & M). split; [rewrite Hlook; exact Hpre|]. split; [exact M|].
     assert (Hoo : getOrdinal (fixpod s p) = getOrdinal p) by (unfold getOrdinal; rewrite (fixpod_name s p (wf_name _ _ _ _ W p Hp)); reflexivity).
-    rewrite Hoo. apply Hclaims_cached. exact R.
+    rewrite Hoo. unfold j in Hfresh. cbn [act_ord] in Hfresh. apply Hfresh; [reflexivity | exact R].
 Qed.
 
 End Exec.
@@ -621,7 +703,7 @@ Hypothesis Hrep : s_replicas s = Some r.
 Hypothesis Hext : extend r (get_slots (s_slots s)) = (cnt, slots).
 Hypothesis W : wf s cnt slots (w_pods w).
 Hypothesis Hnd : NoDup (w_pods w).
-Hypothesis Hcc : forall j, in_range cnt slots j = true -> claims_cached s w j.
+Hypothesis Hnames : NoDup (flat_map (fun j => map (fun t => claim_name t (s_name s) j) (s_claims s)) (ordinals_of cnt slots)).
 
 Let pods := w_pods w.
 Let acts := plan_acts s cur upd cnt slots pods.
@@ -661,7 +743,7 @@ Proof.
   destruct plan_some as (po & Hpo & Hacts). fold pods. rewrite Hpo, Hacts. revert st HP Hf.
   match goal with |- forall st, _ -> _ -> forall r0 st', ?m st = _ -> _ => change (hk (fun x => x = w) m (fun x => w_pods x = fold_left (exec1 s) acts pods)) end.
   eapply hk_bind_hoare.
-  { apply (exec_acts_ok s cache acts w). apply (plan_all_ok pods W cache). intros j R. apply Hcc. exact R. }
+  { apply (exec_acts_ok s cache acts w). apply (plan_all_ok pods W cache Hnames). }
   intros u'. cbv beta.
   apply (hk_keeps same_pods).
   - apply (keeps_bind _ same_pods_trans); [apply keeps_pods_set_status | intros _; apply keeps_pods_truncate].
@@ -679,10 +761,10 @@ Proof.
   inversion Er as [[Eo El Ew]]. exact (sync_pods {| rs_api := w; rs_log := []; rs_n := 0; rs_faults := [] |} eq_refl eq_refl r0 st' Es).
 Qed.
 
-Lemma all_ok_names_nodup : forall l L, all_ok s cache L l -> NoDup (map p_name L) -> NoDup (map p_name (fold_left (exec1 s) l L)).
+Lemma all_ok_names_nodup : forall l L C, all_ok s cache L C l -> NoDup (map p_name L) -> NoDup (map p_name (fold_left (exec1 s) l L)).
 Proof.
-  induction l as [|a t IH]; intros L Hok Hn; cbn [fold_left all_ok] in *; [exact Hn|].
-  destruct Hok as [H1 H2]. apply IH; [exact H2|]. apply exec1_nodup; [exact Hn|].
+  induction l as [|a t IH]; intros L C Hok Hn; cbn [fold_left all_ok] in *; [exact Hn|].
+  destruct Hok as [H1 H2]. apply (IH _ (exec1c s cache C a)); [exact H2|]. apply exec1_nodup; [exact Hn|].
   intros f ->. cbn [okact] in H1. tauto.
 Qed.
 
@@ -700,9 +782,9 @@ Proof.
   pose proof (reconcile_applies_plan _ _ _ Er) as Hp1.
   set (names := map p_name (w_pods w1)).
   set (wf_ := fold_left (fun a m => kubelet a m KSettle) names (fold_left (fun a m => kubelet a m KGone) names w1)).
-  assert (Hok : all_ok s cache pods acts) by (apply (plan_all_ok pods W cache); intros j R; apply Hcc; exact R).
+  assert (Hok : all_ok s cache pods (w_claims cache) acts) by (apply (plan_all_ok pods W cache Hnames)).
   assert (Hn0 : NoDup (map p_name pods)) by (apply wf_names_nodup; assumption).
-  assert (Hn1 : NoDup (map p_name (w_pods w1))) by (rewrite Hp1; apply all_ok_names_nodup; assumption).
+  assert (Hn1 : NoDup (map p_name (w_pods w1))) by (rewrite Hp1; apply (all_ok_names_nodup acts pods (w_claims cache)); assumption).
   assert (Hnf : NoDup (map p_name (w_pods wf_))).
   { unfold wf_. apply kubelet_fold_nodup; [right; reflexivity|]. apply kubelet_fold_nodup; [left; reflexivity | exact Hn1]. }
   assert (Hlook : forall n, look n (w_pods wf_) = post (fold_left (step1 s) (acts_for s n acts) (look n pods))).
